@@ -160,6 +160,13 @@ def seq_roots(tier):
                         con["ub"] = [alpha.NAN]
                 c["tag"]["special"] = "nan-entries"
                 out.append(c)
+    # cross-feature cases (mc/cover.py): the 3-way array in quick, 3-way and 4-way in thorough
+    from .. import cover
+    for c in cover.roots_for(tier):
+        if tier == "quick" and c["tag"]["part"] != "cross-feature":
+            continue
+        c = {k: v for k, v in c.items() if k not in ("explore", "monitors")}
+        out.append(c)
     return out
 
 
